@@ -67,6 +67,15 @@ void engine_error(const char *fmt, ...) __attribute__((format(printf,1,2), noret
 /* Writes the result JSON and returns the process exit code */
 int finish(void);
 
+/* ---- paint (C11): stack / caller-object contents before library calls ---- */
+extern int g_paint;                 /* -1: off; else the byte pattern (--paint) */
+void verif_paint_stack(void);       /* fills the stack below the caller with the pattern */
+void verif_paint_obj(void *p, size_t n);  /* caller object before init/set_key: pattern, or poison under MSan */
+void verif_unpoison(void *p, size_t n);   /* harness-side bookkeeping copies of painted memory (MSan builds) */
+/* order-independent digest of everything the library returned (outputs, schedules, return values) */
+extern uint64_t g_out_sum;
+void out_digest(const char *tag, const void *out, size_t n);
+
 /* ---- back-end pinning (pin.c) ---- */
 enum { BE_GEN = 0, BE_V128 = 1, BE_V256 = 2 };
 extern int g_pin;               /* back end the wrapped probes report */
